@@ -21,6 +21,7 @@ type Msg struct {
 	Term     uint64
 	Req      any
 	Resp     any
+	Pre      *delivFacts // state of the destination when the request was handed over
 	RespErr  string
 	Snap     []byte
 	SentSeq  int64
